@@ -35,6 +35,12 @@ LITERALS_MORE = ["a|b", "(a|b)", "(?:", "a\\\\", "\\(", "[a]", "[^", "a{1,2}", "
 CLASS_LEAVES = [("AnyLetter", ()), ("AnyFrom", ("|", "a")), ("AnyFrom", (")", "(")), ("AnyFrom", ("]",)), ("AnyDigit", ()), ("AnyButFrom", ("$",)),
                 ("AnyFrom", ("?", "*")), ("Any", ()), ("AnyButFrom", ("\\",)), ("AnyBetween", ("A", "\\")), ("AnyFrom", ("\\", "]"))]
 TOKEN_LEAVES = ["Backslash", "Newline", "Dollar"]
+# classes whose text holds an UNBALANCED unescaped parenthesis, and groups around such classes: a classifier that looks at
+# the text before the classes are collapsed sees `([<(])|([>)])` as one balanced group
+PAREN_CLASSES = [("AnyFrom", ("(", "<")), ("AnyFrom", (")", ">")), ("AnyButFrom", ("(",)), ("AnyFrom", ("[", "(")), ("AnyFrom", ("\\", ")"))]
+COMPOSITE_LEAVES = [("cap", ("cls", ("AnyFrom", ("(", "<")))), ("cap", ("cls", ("AnyFrom", (")", ">")))), ("grp", ("cls", ("AnyFrom", ("(", "<")))),
+                    ("cap", ("cls", ("AnyFrom", ("|", "a")))), ("cap", ("lit", "a)")), ("grp", ("lit", "(b")), ("cap", ("cls", ("AnyFrom", ("\\", ")"))))]
+COMPOSITE_PARTNERS = [("cap", ("cls", ("AnyFrom", (")", ">")))), ("grp", ("cls", ("AnyFrom", (")", "]")))), ("cap", ("lit", "(b"))]
 
 UNARY1 = ["optional", "at_least2", "capture", "named_capture", "group", "group_i", "match_at_start", "match_at_line_end"]
 BINARY1 = ["either", "concat", "followed_by", "not_preceded_by", "enclose"]
@@ -146,6 +152,9 @@ def build_leaf(it, model, spec):
         return it.construct(model.cls("pregex.core.classes", a[0]), list(a[1]))
     if kind == "tok":
         return it.construct(model.cls("pregex.core.tokens", a), [])
+    if kind in ("cap", "grp"):        # composite leaf: a capture / group around another leaf (the classifier sees `(...)` around it)
+        inner = build_leaf(it, model, a)
+        return _call(it, model, inner, "capture" if kind == "cap" else "group")
     raise AssertionError(kind)
 
 
@@ -155,12 +164,14 @@ def leaf_label(spec):
         return repr(a)
     if kind == "cls":
         return f"{a[0]}({', '.join(map(repr, a[1]))})"
+    if kind in ("cap", "grp"):
+        return f"{'Capture' if kind == 'cap' else 'Group'}({leaf_label(a)})"
     return f"{a}()"
 
 
 def leaves(tier):
     lits = LITERALS_QUICK + (LITERALS_MORE if tier == "thorough" else [])
-    out = [("lit", s) for s in lits] + [("cls", c) for c in CLASS_LEAVES] + [("tok", t) for t in TOKEN_LEAVES]
+    out = [("lit", s) for s in lits] + [("cls", c) for c in CLASS_LEAVES + PAREN_CLASSES] + [("tok", t) for t in TOKEN_LEAVES] + COMPOSITE_LEAVES
     return out
 
 
@@ -224,10 +235,12 @@ def run_all(ctx, model):
     """Evaluate the whole family (in parallel) and return the records."""
     lv = leaves(ctx.tier)
     lits = [l for l in lv if l[0] == "lit"]
-    partner = [("lit", "b"), ("lit", "p|q"), ("lit", "c\\"), ("cls", ("AnyLetter", ())), ("cls", ("AnyButFrom", ("\\",)))]
+    partner = [("lit", "b"), ("lit", "p|q"), ("lit", "c\\"), ("cls", ("AnyLetter", ())), ("cls", ("AnyButFrom", ("\\",)))] + COMPOSITE_PARTNERS
     jobs = []
     for xs in lv:
         for op in UNARY1:
+            if xs[0] in ("cap", "grp") and op in GROUP_OPS:
+                continue              # group()/capture() of a group CONVERTS it (documented; C08 decides that), nothing is wrapped
             jobs.append((op, xs, None))
         for op in BINARY1:
             for ys in partner:
